@@ -43,10 +43,20 @@ EXTRA_PINS = {
     'C11': [('treadmill/scheduler/loader.py', 'Loader.load_servers'), ('treadmill/scheduler/loader.py', 'Loader.load_server'),
             ('treadmill/scheduler/loader.py', 'Loader.load_apps'), ('treadmill/scheduler/loader.py', 'Loader.load_identity_groups'),
             ('treadmill/scheduler/loader.py', 'Loader.load_servers_blacklist')],
-    'C12': [('treadmill/eventmgr.py', 'EventMgr.run')],
+    'C12': [('treadmill/eventmgr.py', 'EventMgr.run'), ('treadmill/fs/__init__.py', 'replace')],
+    'C16': [('treadmill/services/_base_service.py', 'ResourceServiceClient.delete'),
+            ('treadmill/services/_base_service.py', 'ResourceServiceClient.get'),
+            ('treadmill/services/_base_service.py', 'ResourceServiceClient.wait')],
+    'C17': [('treadmill/zkutils.py', 'create'), ('treadmill/zkutils.py', '_payload'), ('treadmill/zkutils.py', 'put')],
+    'C18': [('treadmill/zkutils.py', 'create'), ('treadmill/zkutils.py', '_payload')],
     'C20': [('treadmill/scheduler/master.py', 'Master.process_scheduled'), ('treadmill/scheduler/master.py', 'Master._calculate_aggregate')],
     'C14': [('treadmill/vipfile.py', 'VipMgr.initialize'), ('treadmill/rulefile.py', 'RuleMgr.initialize'),
-            ('treadmill/endpoints.py', 'EndpointsMgr.initialize')],
+            ('treadmill/endpoints.py', 'EndpointsMgr.initialize'),
+            ('treadmill/services/_base_service.py', 'ResourceService._on_created'),
+            ('treadmill/services/_base_service.py', 'ResourceService._on_deleted'),
+            ('treadmill/services/_base_service.py', 'ResourceService._check_requests'),
+            ('treadmill/services/_linux_base_service.py', 'LinuxResourceService._run'),
+            ('treadmill/services/_linux_base_service.py', '_update_request')],
 }
 
 
